@@ -70,6 +70,19 @@ TARGETS = [
     ("pams/agents/market_maker_agent.py", "MarketMakerAgent", "submit_orders"),
     ("pams/agents/fcn_agent.py", "FCNAgent", "submit_orders_by_market"),
     ("pams/simulator.py", "Simulator", "_update_agents_for_execution"),
+    ("pams/simulator.py", "Simulator", "_add_event"),
+    ("pams/simulator.py", "Simulator", "_check_event_class_and_instance"),
+    ("pams/simulator.py", "Simulator", "_trigger_event_before_order"),
+    ("pams/simulator.py", "Simulator", "_trigger_event_after_order"),
+    ("pams/simulator.py", "Simulator", "_trigger_event_before_cancel"),
+    ("pams/simulator.py", "Simulator", "_trigger_event_after_cancel"),
+    ("pams/simulator.py", "Simulator", "_trigger_event_after_execution"),
+    ("pams/simulator.py", "Simulator", "_trigger_event_before_session"),
+    ("pams/simulator.py", "Simulator", "_trigger_event_after_session"),
+    ("pams/simulator.py", "Simulator", "_trigger_event_before_step_for_market"),
+    ("pams/simulator.py", "Simulator", "_trigger_event_after_step_for_market"),
+    ("pams/simulator.py", "Simulator", "_update_time_on_market"),
+    ("pams/simulator.py", "Simulator", "_update_times_on_markets"),
     ("pams/session.py", "Session", "setup"),
     ("pams/runners/sequential.py", "SequentialRunner", "_handle_orders"),
     ("pams/runners/sequential.py", "SequentialRunner", "_collect_orders_from_normal_agents"),
@@ -190,6 +203,16 @@ def expr(e):
         if la.vararg or la.kwarg or la.kwonlyargs or la.defaults or len(la.args) != 1:
             raise Unsupported("lambda with other than one plain parameter")
         return "(.comp %s (.name %s) %s [])" % (expr(lam.body), lstr(la.args[0].arg), expr(e.args[1]))
+    if isinstance(e, ast.Call) and isinstance(e.func, ast.Name) and e.func.id == "filter" and len(e.args) == 2 \
+            and not e.keywords and isinstance(e.args[0], ast.Lambda):
+        # `filter(lambda x: C, xs)` (always consumed by a `for` loop in pams, with a predicate that only looks at
+        # the element's class) is `[x for x in xs if C]`
+        lam = e.args[0]
+        la = lam.args
+        if la.vararg or la.kwarg or la.kwonlyargs or la.defaults or len(la.args) != 1:
+            raise Unsupported("lambda with other than one plain parameter")
+        return "(.comp (.name %s) (.name %s) %s %s)" % (lstr(la.args[0].arg), lstr(la.args[0].arg), expr(e.args[1]),
+                                                       llist([expr(lam.body)]))
     if isinstance(e, ast.Call) and isinstance(e.func, ast.Name) and e.func.id == "cast" and len(e.args) == 2 \
             and not e.keywords:
         # `typing.cast(T, x)` is `x`; the type expression is not evaluated
@@ -373,6 +396,38 @@ def wrap(s, width=110):
     return "\n      ".join(textwrap.wrap(s, width=width, break_long_words=False, break_on_hyphens=False))
 
 
+MRO_ROOTS = ("Market", "Order", "Cancel", "Agent")
+
+
+def class_mros():
+    """class name -> its linearised ancestry (within pams, by base-class *names* in the class statements),
+    for every class of pams that descends from one of MRO_ROOTS; single inheritance is assumed and checked"""
+    bases = {}
+    for root, _, files in os.walk(os.path.join(REPO, "pams")):
+        for f in sorted(files):
+            if f.endswith(".py"):
+                tree = ast.parse(open(os.path.join(root, f)).read())
+                for node in tree.body:
+                    if isinstance(node, ast.ClassDef):
+                        bs = [b.id if isinstance(b, ast.Name) else b.attr if isinstance(b, ast.Attribute) else "?"
+                              for b in node.bases]
+                        bases.setdefault(node.name, bs)
+    out = []
+    for c in sorted(bases):
+        chain, cur = [c], c
+        while cur in bases:
+            known = [b for b in bases[cur] if b in bases]
+            if len(known) > 1:
+                raise Unsupported("multiple inheritance below %s" % cur)
+            if not known:
+                break
+            cur = known[0]
+            chain.append(cur)
+        if any(x in MRO_ROOTS for x in chain):
+            out.append((c, chain))
+    return out
+
+
 def generate(targets=None):
     targets = targets or TARGETS
     trees = {}
@@ -395,10 +450,17 @@ def generate(targets=None):
         src = "/-- `%s` of %s -/\ndef %s : FunDef :=\n  %s\n" % (q, rel, ident, body)
         defs.append(src)
         table.append("(%s, %s)" % (lstr(q), ident))
+    mro = class_mros()
+    mro_text = ("\n/-- the classes of pams whose ancestry matters to `isinstance` in the translated code (markets, orders,\n"
+                "agents): class ↦ the class and its ancestors among them, nearest first -/\n"
+                "def classMro : List (String × List String) :=\n  [" +
+                ",\n   ".join("(%s, %s)" % (lstr(c), llist([lstr(x) for x in m])) for c, m in mro) + "]\n\n"
+                "def mroOf (c : String) : List String :=\n"
+                "  match classMro.find? (fun e => e.1 == c) with\n  | some e => e.2\n  | none => [c]\n")
     text = ("-- generated by harness/py2lean.py from /repo/pams — do not edit\n"
             "import PamsModel.Py\n\nnamespace PamsGen.Code\nopen Pams.Py\n\n" + "\n".join(defs) +
             "\n/-- the translated program: qualified name ↦ definition -/\ndef prog : List (String × FunDef) :=\n  ["
-            + ",\n   ".join(table) + "]\n\nend PamsGen.Code\n")
+            + ",\n   ".join(table) + "]\n" + mro_text + "\nend PamsGen.Code\n")
     return text, status
 
 
